@@ -83,6 +83,8 @@ def childiter_of(name):
         return lambda kids: list(reversed(kids))
     if name == "filter":
         return lambda kids: [k for i, k in enumerate(kids) if i % 2 == 0]
+    if name == "tail":  # drops the first child: an only child disappears, its parent is exported without 'children'
+        return lambda kids: list(kids)[1:]
     raise ValueError(name)
 
 
@@ -277,6 +279,8 @@ KEY = st.one_of(
     st.text(alphabet="abcxyz_", min_size=1, max_size=4),
     st.text(alphabet="abc _-1é.", min_size=1, max_size=4),
     st.sampled_from(["_hidden", "__x", "id", "a b", "1", "Name", "_NodeMixin", "child", "parents"]),
+    # names of read-only NodeMixin properties are ordinary attribute keys for export/import (they live in __dict__)
+    st.sampled_from(["size", "depth", "height", "path", "root", "leaves", "is_leaf", "siblings", "descendants", "ancestors"]),
 ).filter(lambda k: k not in ("parent", "children", "self", "name"))
 
 
@@ -316,7 +320,7 @@ def random_cases(draw):
         "attrs": [draw(attr_list(cls)) for _ in range(size)],
         "start": draw(st.one_of(st.just(0), st.integers(0, size - 1))),
         "attriter": draw(st.sampled_from([None, "sorted", "keyfilter", "genfilter"])),
-        "childiter": draw(st.sampled_from(["list", "reversed", "filter"])),
+        "childiter": draw(st.sampled_from(["list", "reversed", "filter", "tail"])),
         "dictcls": draw(st.sampled_from(["dict", "OrderedDict", "MyDict"])),
         "maxlevel": draw(st.one_of(st.none(), st.integers(0, 6))),
         "mutations": draw(strategies.tree_mutations(max_ops=2, rename_values=st.integers(0, 5))),
@@ -335,7 +339,7 @@ def _enum_cases(max_nodes, index, count):
                 continue
             for maxlevel in [None] + list(range(0, height + 3)):
                 for attriter in (None, "sorted", "keyfilter"):
-                    for childiter in ("list", "reversed", "filter"):
+                    for childiter in ("list", "reversed", "filter", "tail"):
                         for dictcls in ("dict", "OrderedDict", "MyDict"):
                             yield {"kind": "tree", "cls": ["AnyNode", "Node", "AttrNM", "LenAnyNode", "EqAnyNode"][k % 5], "shape": forest.to_list(shape), "attrs": [pattern[(i + k) % 3] for i in range(size)], "start": start, "attriter": attriter, "childiter": childiter, "dictcls": dictcls, "maxlevel": maxlevel}
 
@@ -357,4 +361,4 @@ def run_task(task, acc):
 
 
 def evidence_extra(total, tier):
-    return {"exhaustive_subdomain": "all shapes <= %d nodes x start x every maxlevel x 3 attriters x 3 childiters x 3 dictcls with a fixed attribute pattern" % (4 if tier == "quick" else 6)}
+    return {"exhaustive_subdomain": "all shapes <= %d nodes x start x every maxlevel x 3 attriters x 4 childiters x 3 dictcls with a fixed attribute pattern" % (4 if tier == "quick" else 6)}
